@@ -1598,7 +1598,13 @@ private:
     }
     else
     {
-      _peerIndex.erase(pkey);
+      // Only drop the index entry if it still points at THIS session: viaDo() can
+      // create a second session for an already indexed peer without re-pointing it.
+      auto pit = _peerIndex.find(pkey);
+      if (pit != _peerIndex.end() && pit->second == sid)
+      {
+        _peerIndex.erase(pkey);
+      }
     }
 
     _atomicStats.closed++;
